@@ -6,6 +6,16 @@ from .objects import *
 from .interp import PyRaise, _Auto, _EnumBase, _Items, SuperProxy
 
 
+class OpaqueColl:
+    """set() of symbolic scalars: contents known, multiplicities not.  Only printable."""
+
+    def __init__(self, items):
+        self.items = items
+
+    def pyvc_str(self):
+        return SymStr(cur().fresh("collstr", z3.StringSort()))
+
+
 class MapView:
     symbolic_iter = True
 
@@ -162,7 +172,7 @@ def install(eng):
         return eng.to_str(v)
 
     def py_list(v=()):
-        if isinstance(v, (SymSeq, SymSet)):
+        if isinstance(v, (SymSeq, SymSet, OpaqueColl)):
             return v
         if isinstance(v, MapView):
             if v.kind == "keys":
@@ -188,7 +198,7 @@ def install(eng):
             return v
         items = eng.iterate(v)
         if any(isinstance(x, Sym) for x in items):
-            raise Unsupported("set() of symbolic elements")
+            return OpaqueColl(items)  # de-duplication of symbolic elements is not modelled: usable for printing only
         return set(items)
 
     def py_dict(*a, **k):
